@@ -422,6 +422,9 @@ func VerifC12_tryAckConcurrent() {
 
 var verifC12Sent []*kmsg.ShareAcknowledgeRequest
 
+// per-partition error code the stub coordinator answers with (0 = success)
+var verifC12AnswerCode int16
+
 //verif:replace (*retryable).Request
 func (r *retryable) verifC12Request(ctx context.Context, req kmsg.Request) (kmsg.Response, error) {
 	ack, ok := req.(*kmsg.ShareAcknowledgeRequest)
@@ -436,6 +439,7 @@ func (r *retryable) verifC12Request(ctx context.Context, req kmsg.Request) (kmsg
 		for _, p := range t.Partitions {
 			rp := kmsg.NewShareAcknowledgeResponseTopicPartition()
 			rp.Partition = p.Partition
+			rp.ErrorCode = verifC12AnswerCode
 			rt.Partitions = append(rt.Partitions, rp)
 		}
 		resp.Topics = append(resp.Topics, rt)
@@ -464,6 +468,7 @@ func VerifC12_shareAckRequestMixedAscending() { verifC12ShareAck(true) }
 
 func verifC12ShareAck(mixedOnly bool) {
 	verifC12Sent = nil
+	verifC12AnswerCode = 0
 	e := verifC12NewEnv()
 	s, cur := e.s1, e.cur
 	s.share.sessionEpoch = 3
@@ -560,6 +565,7 @@ func verifC12ShareAck(mixedOnly bool) {
 // record offset appears in exactly one batch carrying its one final outcome.
 func VerifC12_nextPollFinalizes() {
 	verifC12Sent = nil
+	verifC12AnswerCode = 0
 	e := verifC12NewEnv()
 	s, cur := e.s1, e.cur
 	s.share.sessionEpoch = 3
@@ -619,4 +625,48 @@ func VerifC12_nextPollFinalizes() {
 	}
 	verifAssert(e.sc.pendingAcks.Load() == 0, "the pending-acks counter returns to zero after the callback entry ran")
 	verifReached("c12-next-poll")
+}
+
+// A ShareAcknowledge answered with a retriable per-partition error (REQUEST_TIMED_OUT): the
+// acknowledgements are put back on the cursor to be sent again. They are still pending for
+// FlushAcks: the pending counter keeps counting them (FlushAcks returns only after their
+// callback ran), no callback runs for them yet, and the retry — answered with success — sends
+// the same acknowledgements again and brings the counter to zero.
+func VerifC12_retriableAckErrorKeepsPending() {
+	verifC12Sent = nil
+	verifC12AnswerCode = 7 // REQUEST_TIMED_OUT
+	defer func() { verifC12AnswerCode = 0 }()
+	e := verifC12NewEnv()
+	s, cur := e.s1, e.cur
+	s.share.sessionEpoch = 3
+	e.sc.memberGen.store("m", 1)
+	slab := &shareAckSlab{ackSource: s, cursor: cur, sessionEpoch: 3}
+	n := 1 + verifChoose(3)
+	slab.states = make([]shareAckState, n)
+	for i := 0; i < n; i++ {
+		slab.states[i] = shareAckState{deliveryCount: 1, offset: int64(10 + 2*i), slab: slab}
+		st := AckStatus(1 + verifChoose(3)) // accept / release / reject
+		verifAssert(slab.states[i].tryAck(st, false), "the first acknowledgement of a record wins")
+		slab.states[i].appendAck()
+	}
+	verifAssert(e.sc.pendingAcks.Load() == int64(n), "every user acknowledgement is pending")
+	s.shareAck(nil)
+	verifRunAll()
+	verifAssert(len(verifC12Sent) == 1, "the acknowledgements were sent once")
+	verifAssert(len(cur.pendingAcks) == n, "acknowledgements answered with a retriable error are queued on the cursor again")
+	verifAssert(e.sc.pendingAcks.Load() == int64(n), "re-queued acknowledgements stay pending: FlushAcks keeps waiting for them")
+	verifC12AnswerCode = 0
+	s.shareAck(nil)
+	verifRunAll()
+	verifAssert(len(verifC12Sent) == 2, "the re-queued acknowledgements are sent again")
+	if len(verifC12Sent) == 2 {
+		a, b := verifC12Sent[0].Topics[0].Partitions[0].AcknowledgementBatches, verifC12Sent[1].Topics[0].Partitions[0].AcknowledgementBatches
+		same := len(a) == len(b)
+		for i := 0; same && i < len(a); i++ {
+			same = a[i].FirstOffset == b[i].FirstOffset && a[i].LastOffset == b[i].LastOffset && len(a[i].AcknowledgeTypes) == len(b[i].AcknowledgeTypes) && a[i].AcknowledgeTypes[0] == b[i].AcknowledgeTypes[0]
+		}
+		verifAssert(same, "the retry carries the same acknowledgement batches")
+	}
+	verifAssert(len(cur.pendingAcks) == 0 && e.sc.pendingAcks.Load() == 0, "after the successful retry nothing is pending")
+	verifReached("c12-retriable-ack-error")
 }
